@@ -550,7 +550,7 @@ Proof.
   pose proof (ic_nd_ids _ _ _ _ _ H1) as N. unfold ids_of, qids in N. cbn [flat_map msg_ids app] in N.
   apply nodup_middle in N. apply NoDup_cons_iff in N as (N1 & N2). rewrite in_app_iff in N1.
   split; [tauto|]. split; [|split]; auto; cbn [requests set_requests subs batches].
-  - eapply IdsC_shrink; eauto; unfold ids_of, rngs_of, qids, qrngs; cbn [flat_map msg_ids msg_ranges app map fst].
+  - eapply IdsC_shrink; [exact H1|..]; unfold ids_of, rngs_of, qids, qrngs; cbn [flat_map msg_ids msg_ranges app map fst].
     + constructor; auto. rewrite in_app_iff. tauto.
     + intros j. cbn [In]. rewrite !in_app_iff. cbn [In]. tauto.
     + apply (ic_nd_rng _ _ _ _ _ H1).
@@ -586,7 +586,7 @@ Proof.
   assert (D : si <> ui) by (intros ->; tauto).
   split; [tauto|]. split; [tauto|]. split; auto.
   split; [|split]; auto; cbn [requests set_requests subs batches].
-  - eapply IdsC_shrink; eauto; unfold ids_of, rngs_of, qids, qrngs; cbn [flat_map msg_ids msg_ranges app map fst].
+  - eapply IdsC_shrink; [exact H1|..]; unfold ids_of, rngs_of, qids, qrngs; cbn [flat_map msg_ids msg_ranges app map fst].
     + constructor; [|constructor]; auto.
       * cbn [In]. rewrite in_app_iff. intros [E | Hx]; [congruence | tauto].
       * rewrite in_app_iff. tauto.
@@ -634,7 +634,7 @@ Proof.
   pose proof (ic_nd_rng _ _ _ _ _ H1) as N. unfold rngs_of, qrngs in N. cbn [flat_map msg_ranges app] in N.
   apply nodup_middle in N. apply NoDup_cons_iff in N as (N1 & N2). rewrite in_app_iff in N1.
   split; [tauto|]. split; [|split]; auto; cbn [requests set_batches subs batches].
-  - eapply IdsC_shrink; eauto; unfold ids_of, rngs_of, qids, qrngs; cbn [flat_map msg_ids msg_ranges app map fst].
+  - eapply IdsC_shrink; [exact H1|..]; unfold ids_of, rngs_of, qids, qrngs; cbn [flat_map msg_ids msg_ranges app map fst].
     + apply (ic_nd_ids _ _ _ _ _ H1).
     + auto.
     + constructor; auto. rewrite in_app_iff. tauto.
